@@ -806,6 +806,34 @@ def job_count(seed):
         ob(obs, 'C08.count/lammpsdata.%s' % ('mismatch' if file_n != top_n else 'match'), 'LAMMPSDataReader::ReadNumOfAtoms_', 'an atom count that differs from the topology is reported by an exception; a matching one is accepted', r == exp,
            'file %d atoms, topology %d beads: %s' % (file_n, top_n, r), wit={'file_atoms': file_n, 'topology_beads': top_n, 'outcome': r},
            fns=[{'name': 'LAMMPSDataReader::ReadNumOfAtoms_', 'file': 'csg/src/libcsg/modules/io/lammpsdatareader.cc', 'ast_nodes': rvc.node_count(fd['ReadNumOfAtoms_'][0])}])
+    # dlpoly (CONFIG and HISTORY): the header count against the topology
+    fdl = rvc.functions(rvc.ast('csg/src/libcsg/modules/io/dlpolytrajectoryreader.cc', 'DLPOLYTrajectoryReader::NextFrame'))
+    if 'NextFrame' not in fdl:
+        raise core.Undecided('front end: DLPOLYTrajectoryReader::NextFrame not found')
+    K = constants()
+    for is_config in (True, False):
+        for file_n, top_n in ((5, 4), (3, 4)):
+            lines = ['title', [0, 3, file_n] + ([D(0)] if is_config else [])] + ([['timestep', 1, file_n, 0, 3, D(sp.Rational(1, 1000)), D(sp.Rational(1, 1000))]] if not is_config else []) + [[D(1), D(0), D(0)], [D(0), D(1), D(0)], [D(0), D(0), D(1)]]
+            getline, state, pos = reader_stream(lines)
+            touched = []
+            top = Obj(m_BeadCount=lambda: top_n, m_setBox=lambda b, ty=None: touched.append('box'), m_SetHasVel=lambda v: None, m_SetHasForce=lambda v: None, m_setTime=lambda v: None, m_setStep=lambda v: None,
+                      m_getTime=lambda: D(sp.Rational(1, 1000)), m_getBead=lambda k: (touched.append('bead'), Obj())[1])
+            def decl(ex_, vd, ty, inner):
+                if 'Tokenizer' in ty:
+                    v = ctor_arg(ex_, inner)
+                    return Obj(m_ToVector=lambda: [(rvc._i(x) if (isinstance(x, D) and x.v.is_Integer) else x) for x in v])
+                return NotImplemented
+            cbr = {'getline': getline, 'eof': lambda f: state['eof'], 'decl': decl, 'global': lambda nm: K[nm], 'enum': lambda nm: nm, 'ostream_write': lambda *a: None,
+                   'lexical_cast': lambda x_: rvc._i(x_) if not isinstance(x_, str) else int(x_), 'stod': lambda x_: D.lift(x_), 'abs': lambda x_: D(0)}
+            this = {'__class__': 'DLPOLYTrajectoryReader', 'fl_': 'STREAM', 'fname_': 'FILE', 'first_frame_': True, 'isConfig_': is_config}
+            try:
+                r = run(fdl['NextFrame'][0], {'conf': top}, cbr, this)
+            except rvc.Unsupported as e:
+                r = 'unsupported: %s' % e
+            ob(obs, 'C08.count/dlpoly.%s.%s' % ('config' if is_config else 'history', 'more' if file_n > top_n else 'fewer'), 'DLPOLYTrajectoryReader::NextFrame',
+               'a header atom count that differs from the topology is reported by an exception before the topology is touched (no box, no bead set from the mismatching frame)', r == 'thrown' and not touched,
+               'file %d atoms, topology %d beads: %s, touched %s' % (file_n, top_n, r, touched), wit={'file_atoms': file_n, 'topology_beads': top_n, 'format': 'CONFIG' if is_config else 'HISTORY', 'outcome': r},
+               fns=[{'name': 'DLPOLYTrajectoryReader::NextFrame', 'file': 'csg/src/libcsg/modules/io/dlpolytrajectoryreader.cc', 'ast_nodes': rvc.node_count(fdl['NextFrame'][0])}])
     # gro
     fg = rvc.functions(rvc.ast('csg/src/libcsg/modules/io/groreader.cc', 'GROReader::NextFrame'))
     for file_n, top_n in ((5, 4),):
